@@ -16,6 +16,10 @@ CLAIMED = {
   text="Bounded symbolic execution of the real body.Modifier.ModifyResponse (strings.Split/TrimSpace, strconv.Atoi, multipart.Writer all executed from SSA) on symbolic content and symbolic Range headers; z3 shows for every header within the bound: no panic, body readable with Content-Length equal to its length, and the outcome is full content, a 416 only when some range is malformed/unsatisfiable, or a 206 whose bytes, Content-Range and multipart framing equal an RFC 7233 reference computed in the harness.",
   note="Bounds: content length in {0,1,2,3,5}; Range = 'bytes=' + <=4 (quick) / <=6 (thorough) free characters over [0-9,- ] or the structured family bytes=a-[b][,c-[d]] with numbers of <=2 / <=4 symbolic digits. The static-file modifier half of C20 (file ranges, path containment) is not covered yet. Trusted: go/ssa, symgo, z3.",
   ref="DESIGN.md section 6, C20"),
+ "C17": dict(
+  text="One inductive step, decided by bounded symbolic execution of the real RecordRequest/RecordResponse/Export/ExportAndReset/Reset from SSA: from an arbitrary log state satisfying the representation invariant (n retained entries, symbolic ids constrained only to be distinct, symbolic completion bits) and an operation with a symbolic id argument (z3 decides whether it aliases an existing id), the invariant holds again and the result equals a slice model. Because the step holds from every valid state, histories of any length follow for logs of up to n simultaneously retained entries; a second harness runs all operation sequences of bounded length from the empty log end to end. A lockset monitor in the engine requires l.mu to be held at every access to entries, tail, Entry.next and Entry.Response inside the five operations, which is the argument for the concurrent clause.",
+  note="Bounds: n<=4 entries quick / 6 thorough, ids of 2 symbolic bytes; sequences of 4 quick / 6 thorough operations over 3 ids. har.NewRequest/NewResponse are summarised (C16's subject). Concurrency is covered by the lock-discipline argument (every access under the one mutex), not by enumerating interleavings. Trusted: go/ssa, symgo, z3.",
+  ref="DESIGN.md section 6, C17"),
 }
 
 NOT_YET = "check not built yet in this round; planned with the same technique (DESIGN.md section 6)"
